@@ -8,7 +8,10 @@ from oracles import transformer_o as TO
 from props._util import rng_for
 
 LEVEL = "other"
-DEDUCTIVE = [{"module": "rnapolis.transformer", "sidecar": "contracts.transformer_c", "targets": ["copy_from_to", "replace_value", "main"]}]
+# solver budget: every obligation of these targets is discharged in well under 2 s on the unchanged tree, so an obligation that is still
+# undecided after 4 s per stage (z3, z3 E-matching only, cvc5) is reported as failed without the long default budgets
+DEDUCTIVE = [{"module": "rnapolis.transformer", "sidecar": "contracts.transformer_c", "targets": ["copy_from_to", "replace_value", "main"],
+              "opts": {"z3_ms": 4000, "cvc5_s": 4}, "retry_unknown": False}]
 TRUSTED = [
     "CPython 3.12 as encoded by pyvc (incl. list objects with identity: item-name list, attribute list, row list and rows are heap objects, so the aliasing through getAttributeList()/getRowList() is modelled, not assumed away)",
     "mmcif IoAdapterPy.readFile (contracts.transformer_c.ext_readFile): returns new, pairwise different container/category/list/row objects holding parse(text); category names in a container are pairwise different and each is a catalog key",
